@@ -55,7 +55,9 @@ func Nitro(wdt float64, subd int, zeit int, g *GlobalVarsMain, l *NitroSharedVar
 
 	if !g.AUTOFERT {
 		//! +++++++++++++++++++++++++++++++++++++ Option real fertilization +++++++++++++++++++++++++++++++++++++++++++++++
-		if zeit == g.ZTDG[g.NDG.Index]+1 && subd == 1 {
+		// scheduled fertilisations have distinct dates, only the harvest residue of the initial crop (slot 0)
+		// and a fertilisation dated on the start day are due on the same day
+		for zeit == g.ZTDG[g.NDG.Index]+1 && subd == 1 {
 			g.NFOS[0] = g.NFOS[0] + g.NSAS[g.NDG.Index]
 			g.NAOS[0] = g.NAOS[0] + g.NLAS[g.NDG.Index]
 			g.DSUMM = g.DSUMM + g.NDIR[g.NDG.Index] //! Summe miner. Duengung
